@@ -5,3 +5,4 @@ pub mod codecs;
 pub mod s3;
 pub mod s2;
 pub mod s5;
+pub mod s6;
